@@ -71,6 +71,11 @@ class EngineB:
         else:
             h.verdict = 'ERROR'
         h.failed_checks = list(dict.fromkeys(re.findall(r'Failed Checks: (.*)', out)))
+        nh = len(re.findall(r'Checking harness ', out))
+        if nh > 1:
+            h.verdict = 'ERROR'
+            h.out = f'harness name {h.name} matched {nh} harnesses (substring match): rename'
+
         m = re.search(r'\*\* (\d+) of (\d+) cover properties satisfied(?: \((\d+) unreachable\))?', out)
         if m:
             # covers in branches that are dead by construction (constant harness flags) are reported "unreachable": not counted
